@@ -10,7 +10,7 @@ From Ink.Json Require Import StdLoad StdLoadProofs StdLoadDepth StdLoadNames.
 From Ink.Gen Require Import LoadGen.
 From Ink.Gen Require Import SaveGen.
 From Ink.Engine Require Import Api Tie Save.
-From Ink.Shell Require Import ResetProofs HostFrame HostFrameLoad.
+From Ink.Shell Require Import ResetProofs HostFrame HostFrameLoad LoadTotal.
 
 (* (1) totality: with every story-reachable site repaired, no document panics *)
 Theorem load_story_total :
@@ -113,15 +113,34 @@ Theorem a_story_loads : is_ok (load_story tiny_story) = true /\ is_ok (load_stor
 Proof. exact tiny_story_loads. Qed.
 Print Assumptions a_story_loads.
 
-(* ---------------------------------------------------------------------------
-   SLOT (save-state half): load_state_total : forall W j, Inv W -> load_state W j <> Panic _
-   and failed_load_then_reset need Engine/State.v + the model of
-   StoryState::load_json / Flow::from_json / CallStack / VariablesState::load_json
-   (lead).  The helpers they call are modelled and covered by the table above:
-   jarray_to_obj_list (L_objlist_skip_last), jobject_to_hashmap_values
-   (L_hashmap_value), jobject_to_int_hashmap (L_int_hashmap_val), jobject_to_choice.
-   Until then the save half is explored on the implementation only (tools/props/c15.py).
-   --------------------------------------------------------------------------- *)
+(* ---------------- save-state half: Story::load_state is total ----------------
+   The model of StoryState::load_json_obj / Flow::from_json / CallStack::load_json / Thread::from_json /
+   VariablesState::load_json (Engine/Save.v) over the helpers of json_read.rs, parametrised by the per-site
+   tables regenerated from the sources (Gen/SaveGen.v, Gen/LoadGen.v).  For EVERY world — any story, any
+   state reached, any bookkeeping — and EVERY JSON document: Ok or Err, never a panic. *)
+Theorem load_state_total :
+  forall (sp : ssite -> bool) (ssw : save_switches),
+    (forall s, load_ssite s = true -> sp s = false) -> (forall s, lsite_panics s = false) ->
+    forall w j site, fst (load_state sp ssw w j) <> OPanic site.
+Proof. exact load_state_total_gen. Qed.
+Check load_state_total :
+  forall (sp : ssite -> bool) (ssw : save_switches),
+    (forall s, load_ssite s = true -> sp s = false) -> (forall s, lsite_panics s = false) ->
+    forall w j site, fst (load_state sp ssw w j) <> OPanic site.
+Print Assumptions load_state_total.
+
+(* the source as it is NOW: both hypotheses hold of the regenerated tables *)
+Theorem load_state_never_panics : forall w j site, fst (load_state_now w j) <> OPanic site.
+Proof. exact load_state_total_now. Qed.
+Check load_state_never_panics : forall w j site, fst (load_state_now w j) <> OPanic site.
+Print Assumptions load_state_never_panics.
+
+(* the hypothesis is not idle: with the unwrap on the evalStack array back in place the document
+   {"inkSaveVersion":10,"flows":{},"evalStack":0} panics, in every story and from every state *)
+Theorem load_state_total_needs_repaired_sites :
+  forall ssw w, exists site, fst (load_state eval_site_only ssw w doc_eval_not_array) = OPanic site.
+Proof. exact load_state_panics_with_eval_site_on. Qed.
+Print Assumptions load_state_total_needs_repaired_sites.
 
 (* ---------------- "after a failed load the story can still be reset and plays like a fresh one" ---------------- *)
 (* load_state writes the StoryState only, so whatever it did — succeeded, or stopped half way with
